@@ -2053,6 +2053,9 @@ class PseudoNetCDFFile(PseudoNetCDFSelfReg, object):
             for dk, ia in isarray.items():
                 if ia:
                     dimslices[dk] = np.asarray(dimslices[dk])
+                    if dimslices[dk].size == 0:
+                        # an empty list would otherwise be a float array
+                        dimslices[dk] = dimslices[dk].astype('i')
 
         for dk, ds in dimslices.items():
             # if anyisarray and isarray[dk]: continue
@@ -2097,6 +2100,9 @@ class PseudoNetCDFFile(PseudoNetCDFSelfReg, object):
                 varo, key=vark, dimensions=odims, withdata=False)
             for pk in varo.ncattrs():
                 setattr(newvaro, pk, getattr(varo, pk))
+            if anyisarray and needsfancy and arraylen == 0:
+                # no points selected: the new variable is already empty
+                continue
             if anyisarray and needsfancy:
                 # integers are applied as scalars, so a point array only has
                 # the sliced axes; the new dimension goes after the sliced
